@@ -64,7 +64,7 @@ type result struct {
 // component numbers of CTotal
 var components = map[string]int{
 	"decl": 1, "fontface": 2, "counterstyle": 3, "stylesheet": 4, "selector": 5, "svg": 6,
-	"dataurl-fetch": 7, "html": 8, "color": 9, "cssparse": 10, "styleattr": 11,
+	"dataurl-fetch": 7, "html": 8, "color": 9, "cssparse": 10, "styleattr": 11, "metadata": 12,
 }
 
 func init() {
@@ -120,6 +120,14 @@ func runTotal(c, s string) (isErr bool) {
 		// box generation: colspan / rowspan / span readers of boxes_tree.go, table grid of build.go
 		_ = bo.BuildFormattingStructure(doc.Root, sf, bo.URLResolver{Fetch: doc.UrlFetcher, FetchImage: imgFetcher},
 			doc.BaseUrl, &tc, cs, foot)
+		_ = doc.GetMetadata()
+		return false
+	case "metadata":
+		// utils.GetHtmlMetadata: <title>, <meta name content> (keywords, dates ...), <link rel=attachment>
+		doc, err := tree.NewHTML(utils.InputString(s), "http://verif.test/", noFetch, "")
+		if err != nil {
+			return true
+		}
 		_ = doc.GetMetadata()
 		return false
 	case "color":
@@ -347,6 +355,23 @@ func runModelled(j job) result {
 		res.Coq = fmt.Sprintf("CMedia %s %d %s", ptoks(toks), ocOf(o, !ok), vlib.List(items))
 		res.Obs = fmt.Sprintf("%q ok=%v", media, ok)
 		return fin(res, o, !ok)
+	case "w3cdate":
+		// the groups of the regular expression (cannot panic) and parseW3cDate itself
+		groups, matched := utils.VerifC07W3cDateGroups(s)
+		var unix int64
+		var offset int
+		var err error
+		o := render.Guard(func() { unix, offset, err = utils.VerifC07ParseW3cDate(s) })
+		if o.Status != "ok" || err != nil {
+			unix, offset = 0, 0
+		}
+		items := make([]string, len(groups))
+		for i, gr := range groups {
+			items[i] = vlib.Bytes(gr)
+		}
+		res.Coq = fmt.Sprintf("CW3cDate %s %d %s %s %s %s", vlib.Bytes(s), ocOf(o, err != nil), vlib.Bool(matched), vlib.List(items), vlib.Z(int(unix)), vlib.Z(offset))
+		res.Obs = fmt.Sprintf("matched=%v groups=%q unix=%d offset=%d err=%v", matched, groups, unix, offset, err)
+		return fin(res, o, err != nil)
 	case "fontweight":
 		var v int
 		o := render.Guard(func() { v = svg.VerifC07ParseFontWeight(s) })
